@@ -111,6 +111,10 @@ RULE_DISP = ("sessions of public-API operations (register_*_hook on classes/NewT
 REGISTRY = {
     "C01": {"props_file": "Props/C01.v", "files": CORE_CONV + ["Proofs/UnstructProofs.v", "Proofs/ClassRoundtrip.v", "Proofs/ConvRoundtrip.v", "Proofs/ConvCfg.v", "Props/C01.v"],
             "run": _conv("C01", 40), "rule": RULE_CONV, "t1_sections": ["gen"]},
+    "C03": {"props_file": "Props/C03.v", "files": CORE_CONV + ["Proofs/ConvSound.v", "Proofs/ConvPrim.v", "Proofs/ConvCfg.v", "Props/C03.v"],
+            "run": _conv("C03", 40), "rule": RULE_CONV, "t1_sections": ["gen"]},
+    "C06": {"props_file": "Props/C06.v", "files": CORE_CONV + ["Proofs/UnstructProofs.v", "Proofs/ClassRoundtrip.v", "Proofs/ConvSound.v", "Proofs/ConvRoundtrip.v", "Proofs/ConvCfg.v", "Props/C06.v"],
+            "run": _conv("C06", 40), "rule": RULE_CONV, "t1_sections": ["gen"]},
     "C02": {"props_file": "Props/C02.v", "files": CORE_CONV + ["Proofs/ConvSound.v", "Proofs/ConvCfg.v", "Props/C02.v"], "run": _conv("C02", 40), "rule": RULE_CONV, "t1_sections": ["gen"]},
     "C04": {"props_file": "Props/C04.v", "files": CORE_TPL + ["Props/C04.v"], "run": _c04, "rule": RULE_TPL, "t1_sections": ["gen"]},
     "C09": {"props_file": "Props/C09.v", "files": CORE_TPL + ["Proofs/UnstructProofs.v", "Props/C09.v"], "run": _c09, "rule": RULE_TPL, "t1_sections": ["gen"]},
